@@ -221,6 +221,14 @@ Error BaseRAPass::run_on_function(Arena& arena, FuncNode* func, [[maybe_unused]]
   // Reset possible connections introduced by the register allocator.
   RAPass_reset_virt_reg_data(this);
 
+  // If the allocator failed before `_work_regs` was populated some virtual registers still reference their work registers,
+  // which are going to be destroyed with the arena - make sure no virtual register keeps such reference.
+  if (ASMJIT_UNLIKELY(err != Error::kOk)) {
+    for (VirtReg* virt_reg : cc().virt_regs()) {
+      virt_reg->_work_reg = nullptr;
+    }
+  }
+
   // Reset all core structures and everything that depends on the passed `Arena`.
   RAPass_cleanup_after_function(this);
 
